@@ -29,9 +29,10 @@ const NONCE_LEN_FIELD: usize = 2;
 // n bytes - encrypted DEK
 // n bytes - nonce
 // n bytes - opaque (AEAD encrypted seed + tag)
+// The length of the wrapped DEK is KMS-specific (it may be shorter than the DEK itself),
+// it is validated against the blob's length in decrypt_seed().
 const MIN_PAYLOAD_SIZE: usize = DEK_LEN_FIELD
     + NONCE_LEN_FIELD
-    + DEK_LEN_BYTES
     + NONCE_LEN_BYTES
     + SEED_LENGTH as usize
     + TAG_LEN_BYTES;
@@ -77,7 +78,7 @@ impl EnvelopeEncryption {
         let dek_len = tmp.read_u16::<LittleEndian>()? as usize;
         let nonce_len = tmp.read_u16::<LittleEndian>()? as usize;
 
-        if nonce_len != NONCE_LEN_BYTES || dek_len > ciphertext_blob.len() {
+        if nonce_len != NONCE_LEN_BYTES || dek_len > ciphertext_blob.len() - MIN_PAYLOAD_SIZE {
             return Err(KmsError::InvalidData(format!(
                 "invalid DEK ({}) or nonce ({}) length",
                 dek_len, nonce_len
